@@ -3,7 +3,8 @@
    every well-formed statement and prints exactly the directives of the statement theorem. *)
 From Coq Require Import ZArith QArith List Bool Lia.
 From Knut Require Import Model.Str Model.Dec Model.Date Model.Account Model.Ledger Model.Journal
-     Model.Table Model.ImpCommonA Model.ImpCommonB Model.Imp.Interactivebrokers
+     Model.Table Model.ImpCommonA Model.ImpCommonB Model.Imp.Revolut2 Model.Imp.Revolut Model.Imp.Wise Model.Imp.Swissquote
+     Model.Imp.Interactivebrokers Model.Imp.Viac
      Spec.ImpSpecA Spec.ImpSpecB Spec.ImpSpecIB
      Proofs.ImpProofsA Proofs.ImpProofsB Proofs.ImpProofsIB.
 Import ListNotations.
@@ -125,4 +126,189 @@ Proof.
   intros Fa Fi Fd Fw Ff Ft Hwf. unfold ibs_statement_output. rewrite Hwf. eexists. split; [reflexivity|].
   rewrite (run_interactivebrokers_ok _ _ _ _ _ _ _ _ _ _ _ _ _ Fa Fi Fd Fw Ff Ft Hwf).
   reflexivity.
+Qed.
+
+(* ---------------------------------------------------------------- revolut2, revolut, wise, swissquote *)
+(* a transaction that books bookings between named accounts has no nil account *)
+Lemma books_b_named acct f ls tg t : books_b acct f ls tg t -> forallb leg_named ls = true ->
+  existsb nil_posting (t_postings t) = false.
+Proof.
+  intros (_ & Hc & _) Hn. unfold consists_of in Hc. rewrite Hc, <- legs_postings_spec. apply legs_postings_named. exact Hn.
+Qed.
+
+Lemma forall2_books_named {A} acct (fact : A -> row_effect) (legs : A -> list leg) (tg : A -> option (list commodity)) xs ts :
+  Forall2 (fun x t => books_b acct (fact x) (legs x) (tg x) t) xs ts ->
+  (forall x, In x xs -> forallb leg_named (legs x) = true) ->
+  uses_nil (map DTxn ts) = false.
+Proof.
+  intros H. induction H as [|x t xs ts Hb _ IH]; intros Hn; [reflexivity|].
+  cbn [map]. change (uses_nil (DTxn t :: map DTxn ts)) with (existsb nil_posting (t_postings t) || uses_nil (map DTxn ts)).
+  rewrite (books_b_named _ _ _ _ _ Hb (Hn x (or_introl eq_refl))), IH; [reflexivity|].
+  intros y Hy. apply Hn. right. exact Hy.
+Qed.
+
+Lemma assertions_named acct bals : is_nil_account acct = false -> uses_nil (map (assertion_of acct) bals) = false.
+Proof.
+  intros Na. induction bals as [|b bals IH]; [reflexivity|].
+  cbn [map]. change (uses_nil (assertion_of acct b :: map (assertion_of acct) bals))
+    with ((is_nil_account acct || false) || uses_nil (map (assertion_of acct) bals)).
+  rewrite Na, IH. reflexivity.
+Qed.
+
+Ltac named_legs := unfold leg_named; cbn [forallb l_credit l_debit]; repeat match goal with H : is_nil_account _ = false |- _ => rewrite H end; try reflexivity.
+
+(* revolut2 *)
+Theorem revolut2_run aflag fflag acct feeacct rows :
+  account_flag aflag = AAcc acct -> account_flag fflag = AAcc feeacct ->
+  acct <> tbd_account -> acct <> feeacct -> forallb r2_wf_row rows = true ->
+  exists ts bals,
+    run_revolut2 aflag fflag (CRec r2_header :: map CRec rows) =
+      mkRun (print_directives (map DTxn ts ++ map (assertion_of acct) bals)) SOk /\
+    Forall2 (fun r t => books_b acct (r2_fact r) (r2_legs acct feeacct r) None t) (filter r2_is_booking rows) ts /\
+    map t_desc ts = map build_desc (map r2_text (filter r2_is_booking rows)) /\
+    NoDup (map (fun b => (bf_date b, bf_com b)) bals) /\
+    (forall d c v, In (mkBalFact d c v) bals <-> r2_closing (d, c) rows = Some v).
+Proof.
+  intros Fa Ff H1 H2 Hwf. destruct (revolut2_faithful acct feeacct rows H1 H2 Hwf) as (ts & bals & Hi & Hb & Hrest).
+  exists ts, bals. split; [|split; assumption].
+  pose proof (account_flag_named _ _ Fa) as Na. pose proof (account_flag_named _ _ Ff) as Nf. pose proof tbd_named as Nt.
+  unfold run_revolut2. cbn [resolve_flags]. rewrite Fa, Ff. cbn [flag_account]. rewrite Hi. cbn [finish_run_b].
+  rewrite uses_nil_app, (assertions_named acct bals Na), orb_false_r.
+  rewrite (forall2_books_named acct r2_fact (r2_legs acct feeacct) (fun _ => None) _ _ Hb); [reflexivity|].
+  intros r _. unfold r2_legs. destruct (is_zero (r2_fee r)); named_legs.
+Qed.
+
+(* revolut: assertions woven between the transactions *)
+Lemma rv_weave_named acct cur rows : forall prev ts, is_nil_account acct = false ->
+  uses_nil (map DTxn ts) = false -> uses_nil (rv_weave acct cur prev rows ts) = false.
+Proof.
+  induction rows as [|r rows IH]; intros prev ts Na Hts; [reflexivity|].
+  destruct ts as [|t ts]; [reflexivity|]. cbn [rv_weave].
+  cbn [map] in Hts. change (uses_nil (DTxn t :: map DTxn ts)) with (existsb nil_posting (t_postings t) || uses_nil (map DTxn ts)) in Hts.
+  apply orb_false_elim in Hts. destruct Hts as [Ht Hts].
+  rewrite uses_nil_app.
+  change (uses_nil (DTxn t :: rv_weave acct cur (rv_date r) rows ts))
+    with (existsb nil_posting (t_postings t) || uses_nil (rv_weave acct cur (rv_date r) rows ts)).
+  rewrite Ht, (IH _ _ Na Hts).
+  destruct (Z.eqb (rv_date r) prev); [reflexivity|].
+  change (uses_nil [assertion_of acct (mkBalFact (rv_date r) cur (rv_balance r))]) with ((is_nil_account acct || false) || false).
+  rewrite Na. reflexivity.
+Qed.
+
+Theorem revolut_run aflag acct cur header rows :
+  account_flag aflag = AAcc acct ->
+  acct <> tbd_account -> acct <> valuation_account_for acct ->
+  len_is header 9 = true -> field header 2 = s_paid_out ++ cur ++ [41%Z] ->
+  forallb is_alpha cur = true -> cur <> [] ->
+  forallb rv_wf_row rows = true ->
+  exists ts,
+    run_revolut aflag (CRec header :: map CRec rows) = mkRun (print_directives (rv_weave acct cur zero_date rows ts)) SOk /\
+    Forall2 (fun r t => books_b acct (rv_fact cur r) (rv_legs acct cur r) None t) rows ts /\
+    map t_desc ts = map build_desc (map rv_text rows).
+Proof.
+  intros Fa H1 H2 Hl Hh Hc Hne Hwf.
+  destruct (revolut_faithful acct cur header rows H1 H2 Hl Hh Hc Hne Hwf) as (ts & Hi & Hb & Hd).
+  exists ts. split; [|split; assumption].
+  pose proof (account_flag_named _ _ Fa) as Na. pose proof tbd_named as Nt.
+  assert (Nv : is_nil_account (valuation_account_for acct) = false) by reflexivity.
+  unfold run_revolut. cbn [resolve_flags]. rewrite Fa. cbn [flag_account]. rewrite Hi. cbn [finish_run_b].
+  rewrite rv_weave_named; [reflexivity|exact Na|].
+  apply (forall2_books_named acct (rv_fact cur) (rv_legs acct cur) (fun _ => None) _ _ Hb).
+  intros r _. unfold rv_legs. destruct (rv_exchange r) as [[c q]|]; named_legs.
+Qed.
+
+(* wise *)
+Lemma fee_legs_named acct feeacct (fees : list (commodity * dec)) :
+  is_nil_account acct = false -> is_nil_account feeacct = false ->
+  forallb leg_named (map (fun f => mkLeg acct feeacct (fst f) (snd f)) fees) = true.
+Proof.
+  intros Na Nf. induction fees as [|f fs IH]; [reflexivity|]. cbn [map forallb]. rewrite IH. named_legs.
+Qed.
+
+Lemma ws_entries_named rep acct feeacct trading r e :
+  is_nil_account acct = false -> is_nil_account feeacct = false -> is_nil_account trading = false ->
+  In e (ws_entries rep acct feeacct trading r) -> forallb leg_named (en_legs e) = true.
+Proof.
+  intros Na Nf Nt Hin. pose proof tbd_named as Nb. unfold ws_entries in Hin.
+  destruct (ws_cancelled r); [destruct Hin|].
+  pose proof (fee_legs_named acct feeacct (ws_fees r) Na Nf) as Hfee.
+  destruct (ws_converted r); destruct (ws_dir_of r); cbn [In] in Hin;
+    repeat (destruct Hin as [Hin|Hin]; [subst e|]); try contradiction;
+    try (destruct rep); cbn [en_legs]; rewrite ?forallb_app, ?Hfee; named_legs.
+Qed.
+
+Theorem wise_run rep aflag fflag tflag acct feeacct trading rows :
+  account_flag aflag = AAcc acct -> account_flag fflag = AAcc feeacct -> account_flag tflag = AAcc trading ->
+  acct <> tbd_account -> acct <> feeacct -> acct <> trading -> forallb ws_wf_row rows = true ->
+  let entries := flat_map (ws_entries rep acct feeacct trading) rows in
+  exists ts,
+    run_wise rep aflag fflag tflag (CRec ws_header :: map CRec rows) = mkRun (print_directives (map DTxn ts)) SOk /\
+    Forall2 (fun e t => books_b acct (en_fact e) (en_legs e) None t) entries ts /\
+    map t_desc ts = map build_desc (map en_text entries).
+Proof.
+  intros Fa Ff Ft H1 H2 H3 Hwf entries.
+  destruct (wise_faithful rep acct feeacct trading rows H1 H2 H3 Hwf) as (ts & Hi & Hb & Hd).
+  exists ts. split; [|split; assumption].
+  pose proof (account_flag_named _ _ Fa) as Na. pose proof (account_flag_named _ _ Ff) as Nf.
+  pose proof (account_flag_named _ _ Ft) as Nt.
+  unfold run_wise. cbn [resolve_flags]. rewrite Fa, Ff, Ft. cbn [flag_account]. rewrite Hi. cbn [finish_run_b].
+  rewrite (forall2_books_named acct en_fact en_legs (fun _ => None) _ _ Hb); [reflexivity|].
+  intros e He. apply in_flat_map in He. destruct He as (r & _ & He).
+  exact (ws_entries_named rep acct feeacct trading r e Na Nf Nt He).
+Qed.
+
+(* swissquote *)
+Section SQRun.
+  Variables acct dividend interest tax fee trading : account.
+  Hypothesis Na : is_nil_account acct = false.
+  Hypothesis Nd : is_nil_account dividend = false.
+  Hypothesis Ni : is_nil_account interest = false.
+  Hypothesis Nw : is_nil_account tax = false.
+  Hypothesis Nf : is_nil_account fee = false.
+  Hypothesis Nt : is_nil_account trading = false.
+
+  Lemma sqs_entries_named rows : forall pending e,
+    In e (sqs_entries acct dividend interest tax fee trading pending rows) -> forallb leg_named (en_legs (fst e)) = true.
+  Proof.
+    pose proof tbd_named as Nb.
+    assert (Hs : forall r, forallb leg_named (en_legs (fst (sqs_single acct dividend interest tax fee r))) = true).
+    { intros r. unfold sqs_single. destruct (sqs_kind r); cbn [fst en_legs]; try destruct (is_zero (sqs_dec r 8)); named_legs. }
+    induction rows as [|r rows IH]; intros pending e Hin; [destruct Hin|].
+    cbn [sqs_entries] in Hin. destruct (sqs_kind r).
+    2: destruct pending as [l|]; [|exact (IH _ _ Hin)].
+    all: destruct Hin as [<-|Hin]; [|exact (IH _ _ Hin)]; try apply Hs.
+    - unfold sqs_trade. cbn [fst en_legs]. named_legs.
+    - unfold sqs_exchange. cbn [fst en_legs]. named_legs.
+  Qed.
+End SQRun.
+
+Theorem swissquote_run aflag dflag iflag wflag fflag tflag acct dividend interest tax fee trading header rows :
+  account_flag aflag = AAcc acct -> account_flag dflag = AAcc dividend -> account_flag iflag = AAcc interest ->
+  account_flag wflag = AAcc tax -> account_flag fflag = AAcc fee -> account_flag tflag = AAcc trading ->
+  acct <> tbd_account -> acct <> dividend -> acct <> interest -> acct <> tax -> acct <> fee -> acct <> trading ->
+  sqs_wf false rows = true ->
+  let entries := sqs_entries acct dividend interest tax fee trading None rows in
+  exists ts,
+    run_swissquote aflag dflag iflag wflag fflag tflag (CRec header :: map CRec rows) = mkRun (print_directives (map DTxn ts)) SOk /\
+    Forall2 (fun e t => books_b acct (en_fact (fst e)) (en_legs (fst e)) (snd e) t) entries ts /\
+    map t_desc ts = map build_desc (map (fun e => en_text (fst e)) entries).
+Proof.
+  intros Fa Fd Fi Fw Ff Ft H1 H2 H3 H4 H5 H6 Hwf entries.
+  destruct (swissquote_faithful acct dividend interest tax fee trading header rows H1 H2 H3 H4 H5 H6 Hwf) as (ts & Hi & Hb & Hd).
+  exists ts. split; [|split; assumption].
+  unfold run_swissquote. cbn [resolve_flags]. rewrite Fa, Fd, Fi, Fw, Ff, Ft. cbn [flag_account]. rewrite Hi. cbn [finish_run_b].
+  rewrite (forall2_books_named acct (fun e : tentry => en_fact (fst e)) (fun e : tentry => en_legs (fst e)) (fun e : tentry => snd e) _ _ Hb);
+    [reflexivity|].
+  intros e He. eapply sqs_entries_named; [..|exact He]; eapply account_flag_named; eassumption.
+Qed.
+
+(* ---------------------------------------------------------------- ch.viac with --from *)
+Theorem viac_run_from flag from l fr :
+  valid_name flag = true ->
+  match from with None => Some 0%Z | Some f => parse_iso f end = Some fr ->
+  forallb viac_wf_entry l = true ->
+  run_viac flag from (VValues l) = mkRun (print_directives (map (price_of flag s_CHF) (viac_prices fr l))) SOk.
+Proof.
+  intros Hf Hfr Hwf. unfold run_viac. rewrite Hfr. destruct flag as [|c flag]; [discriminate Hf|]. cbn [is_empty]. rewrite Hf. cbn [negb].
+  rewrite (viac_faithful (c :: flag) fr l Hwf). reflexivity.
 Qed.
